@@ -134,22 +134,22 @@ def fromPath (id : Str) (params : List RustType) : Outcome RustType :=
   if id = s%"Vec" then
     match params with
     | p :: _ => .ok (.vec p)
-    | [] => .panic s%"rust_types.rs:366"
+    | [] => .err .unsupportedType
   else if id = s%"Option" then
     match params with
     | p :: _ => .ok (.option p)
-    | [] => .panic s%"rust_types.rs:369"
+    | [] => .err .unsupportedType
   else if id = s%"HashMap" then
     match params with
     | k :: v :: _ => .ok (.hashMap k v)
-    | [_] => .panic s%"rust_types.rs:375"
-    | [] => .panic s%"rust_types.rs:374"
+    | [_] => .err .unsupportedType
+    | [] => .err .unsupportedType
   else if id = s%"OffsetDateTime" then .ok (.prim .dateTime)
   else if id = s%"str" ∨ id = s%"String" then .ok (.prim .string)
   else if smartPointers.contains id then
     match params with
     | p :: _ => .ok p
-    | [] => .panic s%"rust_types.rs:383"
+    | [] => .err .unsupportedType
   else if id = s%"bool" then .ok (.prim .bool)
   else if id = s%"char" then .ok (.prim .char)
   else if id = s%"u8" then .ok (.prim .u8)
